@@ -238,41 +238,43 @@ class Gateway(Engine):
 
         self._pause()
 
-        def wanted_msg(msg: Message, include_expired: bool = False) -> bool:
-            if msg.code == Code._313F:
-                return msg.verb in (I_, RP)  # usu. expired, useful 4 back-back restarts
-            if msg._expired and not include_expired:
-                return False
-            if msg.code == Code._0404:
-                return msg.verb in (I_, W_) and msg._pkt._len > 7
-            if msg.verb in (W_, RQ):
-                return False
-            # if msg.code == Code._1FC9 and msg.verb != RP:
-            #     return True
-            return include_expired or not msg._expired
+        try:
+            def wanted_msg(msg: Message, include_expired: bool = False) -> bool:
+                if msg.code == Code._313F:
+                    return msg.verb in (I_, RP)  # usu. expired, useful 4 back-back restarts
+                if msg._expired and not include_expired:
+                    return False
+                if msg.code == Code._0404:
+                    return msg.verb in (I_, W_) and msg._pkt._len > 7
+                if msg.verb in (W_, RQ):
+                    return False
+                # if msg.code == Code._1FC9 and msg.verb != RP:
+                #     return True
+                return include_expired or not msg._expired
 
-        msgs = [m for device in self.devices for m in device._msg_db]
+            msgs = [m for device in self.devices for m in device._msg_db]
 
-        for system in self.systems:
-            msgs.extend(list(system._msgs.values()))
-            msgs.extend([m for z in system.zones for m in z._msgs.values()])
-            # msgs.extend([m for z in system.dhw for m in z._msgs.values()])  # TODO
+            for system in self.systems:
+                msgs.extend(list(system._msgs.values()))
+                msgs.extend([m for z in system.zones for m in z._msgs.values()])
+                # msgs.extend([m for z in system.dhw for m in z._msgs.values()])  # TODO
 
-        if self._zzz:
-            pkts = {
-                f"{repr(msg._pkt)[:26]}": f"{repr(msg._pkt)[27:]}"
-                for msg in self._zzz.all(include_expired=True)
-                if wanted_msg(msg, include_expired=include_expired)
-            }
+            if self._zzz:
+                pkts = {
+                    f"{repr(msg._pkt)[:26]}": f"{repr(msg._pkt)[27:]}"
+                    for msg in self._zzz.all(include_expired=True)
+                    if wanted_msg(msg, include_expired=include_expired)
+                }
 
-        else:
-            pkts = {  # BUG: assumes pkts have unique dtms: may be untrue for contrived logs
-                f"{repr(msg._pkt)[:26]}": f"{repr(msg._pkt)[27:]}"
-                for msg in msgs
-                if wanted_msg(msg, include_expired=include_expired)
-            }
+            else:
+                pkts = {  # BUG: assumes pkts have unique dtms: may be untrue for contrived logs
+                    f"{repr(msg._pkt)[:26]}": f"{repr(msg._pkt)[27:]}"
+                    for msg in msgs
+                    if wanted_msg(msg, include_expired=include_expired)
+                }
 
-        self._resume()
+        finally:
+            self._resume()
 
         return self.schema, dict(sorted(pkts.items()))
 
